@@ -5,6 +5,7 @@ import json, sys
 pid = sys.argv[1]
 n = sys.argv[2] if len(sys.argv) > 2 else "a"
 focus = sys.argv[3] if len(sys.argv) > 3 else ""
+avoid = sys.argv[4] if len(sys.argv) > 4 else ""
 for l in open('/verif/properties.jsonl'):
     p = json.loads(l)
     if p['id'] == pid:
@@ -23,7 +24,7 @@ Why the existing tests cannot settle it: {p['why_tests_cant']}
 
 Code the property is anchored in: files {', '.join(p['anchors']['files'])}; mechanisms: {'; '.join(m.get('name','') + ' @ ' + m.get('where','') for m in p['anchors']['mechanism'])}
 
-{("FOCUS for this assignment: put your changes in or around these parts of the anchored code (other people are covering the rest): " + focus + chr(10) + chr(10)) if focus else ""}YOUR TASK: produce TWO different, realistic source changes to the crate (each independent of the other, each as small as a plausible refactoring slip, optimisation or "simplification" a developer could make), each of which BREAKS the property above while (1) the crate still compiles and (2) the ENTIRE existing test suite still passes (`cargo test --workspace --no-fail-fast --offline` from {wt}; all tests that pass on the unmodified tree must still pass). Prefer changes that need something specific to manifest — a particular interleaving or completion order, a fault at a particular point, a multi-step sequence of operations, an unusual input, or two cooperating sites that each look fine alone — NOT changes that ordinary use or an obvious test would expose at once. The two changes should break the property through different mechanisms / different code sites.
+{("FOCUS for this assignment: put your changes in or around these parts of the anchored code (other people are covering the rest): " + focus + chr(10) + chr(10)) if focus else ""}{("ALREADY COVERED by other people (do NOT produce these or close variants of them; find different decisions / different sites to attack, including helper functions one or two calls below the anchored ones and the hand-off between two mechanisms): " + avoid + chr(10) + chr(10)) if avoid else ""}YOUR TASK: produce TWO different, realistic source changes to the crate (each independent of the other, each as small as a plausible refactoring slip, optimisation or "simplification" a developer could make), each of which BREAKS the property above while (1) the crate still compiles and (2) the ENTIRE existing test suite still passes (`cargo test --workspace --no-fail-fast --offline` from {wt}; all tests that pass on the unmodified tree must still pass). Prefer changes that need something specific to manifest — a particular interleaving or completion order, a fault at a particular point, a multi-step sequence of operations, an unusual input, or two cooperating sites that each look fine alone — NOT changes that ordinary use or an obvious test would expose at once. The two changes should break the property through different mechanisms / different code sites.
 
 For EACH change i in {{1,2}} deliver in {out}/change<i>/:
   * patch.diff — `git diff` of the change against the unmodified worktree (source change only, apply-able with `git apply` at the repo root; do NOT include the demonstration test in this diff);
